@@ -672,7 +672,7 @@ def ulp_scores(thr):
 def gen_case(rng, cfg=None, max_animals=5, max_frames=12, degenerate=None, nan_scores=False, ulp=False,
              hidden=False):
     cfg = dict(cfg or rng.choice(all_configs()))
-    if rng.random() < 0.06 and not nan_scores and degenerate is None and cfg["features"] == "keypoints":
+    if rng.random() < 0.06 and not nan_scores and not hidden and degenerate is None and cfg["features"] == "keypoints":
         cfg["scoring_method"] = "euclidean_dist"       # off-diagonal pair (full poses only: NaN-free)
     cfg["window_size"] = rng.choice([1, 2, 3, 5, 1, 2, 3, 5, 4, 8])
     cfg["instance_score_threshold"] = rng.choice([0.0, 0.0, 0.5])
